@@ -20,6 +20,7 @@ fn opts_of(cfg: &serde_json::Value) -> Opts {
             Some("unit-ranges") => wdwarf::RangeForm::UnitRanges,
             _ => wdwarf::RangeForm::Offset,
         },
+        nested: cfg["nested"].as_bool().unwrap_or(false),
     }
 }
 
@@ -339,6 +340,26 @@ pub fn cases(args: &Args) -> Vec<Case> {
                                     cfg: json!({"version": version, "file_index": 0, "one_sequence": false, "low_pc": "body", "edit": edit, "range_form": range_form}),
                                 });
                             }
+                        }
+                    }
+                }
+            }
+        }
+    }
+    // DIE trees that are not flat (subprograms with children), functions resized in every way
+    for &n in &[2usize, 3] {
+        for &s in &[8usize, 130] {
+            for locals_mode in [0u8, 2] {
+                for big in [0, n - 1] {
+                    for range_form in ["offset", "addr"] {
+                        for edit in ["none", "gc", "insert"] {
+                            let wasm = wgen::families::build_leb_full(n, big, s, true, edit == "gc", 0, locals_mode);
+                            out.push(Case {
+                                family: "dwarf".into(),
+                                coords: format!("n={},big={},size={},nops=true,locals={},nested", n, big, s, locals_mode),
+                                wasm,
+                                cfg: json!({"version": 4, "file_index": 0, "one_sequence": false, "low_pc": "body", "edit": edit, "range_form": range_form, "nested": true}),
+                            });
                         }
                     }
                 }
